@@ -8,7 +8,7 @@ RULE = ("S-syn listings (incl. relocatable-object style listings whose sections 
         "records repeat) x rules of all operator kinds (positives, near misses, and rules that can match the empty sequence), each (rule, input) executed through "
         "MasterOfPuppets under all 2x2x2 combinations of return mode (bool/list), search mode (first/all) and address-only "
         "flag (8 real executions). Relations checked: bool == (list non-empty) in each of the 4 (search, address-only) "
-        "settings; first-mode list == all-mode list[:1]; address-only element == text before '::' of the corresponding "
+        "settings (in 30 % of the sets all eight matcher objects are constructed first and then run in a shuffled order); first-mode list == all-mode list[:1]; address-only element == text before '::' of the corresponding "
         "full-text element; no mode raises unless all do. Hook H1 (wrapper around MatchedObserver.finalize installed from the "
         "harness): observer.matched == bool(observer.addr_list) at finalize, and the hit events seen at regex_matched equal "
         "the returned list. A binary stratum runs the same 8 modes on harness-built ELF objects. Non-trivial = the rule is found in at "
@@ -29,16 +29,30 @@ def feat(rng):
                    group_times=0.2, max_depth=2, max_spine=rng.choice([1, 2, 3]))
 
 
-def eight_modes(ctx, ws, rule_path, input_path, binary=False, macros=None):
-    """Run the 8 combinations; returns dict[(ret, search, only_addr)] -> result tuple, plus hook events per run."""
+def eight_modes(ctx, ws, rule_path, input_path, binary=False, macros=None, prepare_first=None):
+    """Run the 8 combinations; returns dict[(ret, search, only_addr)] -> result tuple, plus hook events per run.
+    prepare_first: all eight matcher objects (same rule, same input) are constructed before any of them is run, and they are
+    run in a shuffled order - each must answer for its own modes."""
     res, ev = {}, {}
-    for ret in ("bool", "list"):
-        for search in ("first", "all"):
-            for oa in (False, True):
-                REC.clear()
-                res[(ret, search, oa)] = real.match(rule_path, input_path, binary=binary, ret=ret, search=search, only_addr=oa, macros=macros)
-                ev[(ret, search, oa)] = list(REC.events)
-                ctx.ran()
+    keys = [(ret, search, oa) for ret in ("bool", "list") for search in ("first", "all") for oa in (False, True)]
+    if prepare_first is None:
+        prepare_first = ctx.rng.random() < 0.3
+    if prepare_first:
+        ctx.event("mode_sets_with_all_matchers_built_first")
+        built = {k: real.build(rule_path, input_path, binary=binary, ret=k[0], search=k[1], only_addr=k[2], macros=macros) for k in keys}
+        order = list(keys)
+        ctx.rng.shuffle(order)
+        for k in order:
+            REC.clear()
+            res[k] = real.run(built[k])
+            ev[k] = list(REC.events)
+            ctx.ran()
+        return res, ev
+    for ret, search, oa in keys:
+        REC.clear()
+        res[(ret, search, oa)] = real.match(rule_path, input_path, binary=binary, ret=ret, search=search, only_addr=oa, macros=macros)
+        ev[(ret, search, oa)] = list(REC.events)
+        ctx.ran()
     return res, ev
 
 
@@ -90,7 +104,10 @@ def monitor(driver, doc, text, prep, o):
     ctx = driver.ctx
     case = dsl.case_doc(text, prep, "c12")
     rp = driver.ws.path("rule.yaml")
-    res, ev = eight_modes(ctx, driver.ws, rp, prep.path)
+    pf = getattr(driver, "prepare_first", None)
+    pf = (ctx.rng.random() < 0.3) if pf is None else pf
+    case["prepare_first"] = pf
+    res, ev = eight_modes(ctx, driver.ws, rp, prep.path, prepare_first=pf)
     ok = check_relations(ctx, case, res, ev)
     found = any(r[0] == "ok" and bool(r[1]) for r in res.values())
     ctx.case(("c12", text, prep.expect), found, stratum="found" if found else "not found")
@@ -139,6 +156,7 @@ def run_shard(ctx):
     # long listings: first-match must be the head of all-matches also when the first occurrence lies deep in the listing
     from jv.props import c11
     c11.long_listing_stratum(ctx, d.ws, ctx.share(16, 300))
+    c11.long_variable_stratum(ctx, d.ws, ctx.share(32, 600))
 
 
 def replay(ctx, case):
@@ -148,6 +166,9 @@ def replay(ctx, case):
         from jv.props import c11
         c11.long_listing_stratum(ctx, ws, 8)
         return
+    if case.get("long_variable"):
+        from jv.props import c11
+        return c11.replay_long_variable(ctx, case)
     if case.get("object_b64"):
         op = ws.write("o.bin", __import__("base64").b64decode(case["object_b64"]))
         res, ev = eight_modes(ctx, ws, ws.write("rule.yaml", case["rule"]), op, binary=True)
@@ -159,5 +180,6 @@ def replay(ctx, case):
         pass
     d = D()
     d.ctx, d.ws, d.macros = ctx, ws, None
+    d.prepare_first = bool(case.get("prepare_first"))
     ws.write("rule.yaml", case["rule"])
     monitor(d, yaml.safe_load(case["rule"]), case["rule"], prep, None)
